@@ -143,6 +143,50 @@ func (t *ttlAnalysis) sliceElemsChecked(fn *ssa.Function, S ssa.Value) bool {
 			}
 		case *ssa.MakeSlice:
 		case *ssa.Const:
+		case *ssa.UnOp:
+			// the list lives in a variable cell (a closure of the function captures it): whatever is ever stored into the
+			// cell, here or in a closure, is a list of checked keys
+			var cell *ssa.Alloc
+			switch a := x.X.(type) {
+			case *ssa.Alloc:
+				cell = a
+			case *ssa.FreeVar:
+				cell = bindingCell(a)
+			}
+			if cell == nil || x.Op != token.MUL {
+				okAll = false
+				return
+			}
+			stores := 0
+			var visitRefs func(v ssa.Value, d int)
+			visitRefs = func(v ssa.Value, d int) {
+				if v.Referrers() == nil || d > 2 {
+					return
+				}
+				for _, r := range *v.Referrers() {
+					switch y := r.(type) {
+					case *ssa.Store:
+						if y.Addr == v {
+							stores++
+							walk(y.Val)
+						}
+					case *ssa.MakeClosure:
+						fnc, _ := y.Fn.(*ssa.Function)
+						if fnc == nil {
+							continue
+						}
+						for i, bnd := range y.Bindings {
+							if bnd == v && i < len(fnc.FreeVars) {
+								visitRefs(fnc.FreeVars[i], d+1)
+							}
+						}
+					}
+				}
+			}
+			visitRefs(cell, 0)
+			if stores == 0 {
+				okAll = false
+			}
 		case *ssa.Call:
 			if ap, ok := isAppend(x); ok {
 				walk(ap.Call.Args[0])
@@ -345,7 +389,7 @@ var rR21 = RuleRef{Name: "R21", Doc: "lazy expiry: every keyspace access that ob
 		changed := false
 		_, argOnly := c.funcArgBindings()
 		for _, fn := range fns {
-			if execs[fn] || (fn.Parent() != nil && !argOnly[fn]) || fn == t.checkTTL {
+			if execs[fn] || (fn.Parent() != nil && !argOnly[fn] && !calledDirectlyOnly(fn)) || fn == t.checkTTL {
 				continue
 			}
 			var ps []int
@@ -391,7 +435,7 @@ var rR21 = RuleRef{Name: "R21", Doc: "lazy expiry: every keyspace access that ob
 		for _, s := range collect(fn) {
 			ok, detail := t.checked(fn, s.in, s.key)
 			_, argOnly := c.funcArgBindings()
-			if !ok && !execs[fn] && (fn.Parent() == nil || argOnly[fn]) && paramIndex(fn, canon(s.key)) >= 0 {
+			if !ok && !execs[fn] && (fn.Parent() == nil || argOnly[fn] || calledDirectlyOnly(fn)) && paramIndex(fn, canon(s.key)) >= 0 {
 				c.Add("R21", fnName(fn), s.con, s.in.Pos(), true, "precondition on callers (checked at every call site)")
 				n++
 				continue
@@ -1242,4 +1286,65 @@ func deleteCountOnlyReturned(c *C, ci ssa.CallInstruction) bool {
 		return true
 	}
 	return onlyRet(v, 0)
+}
+
+// calledDirectlyOnly: fn is a closure with parameters whose every use is a direct call in the function that makes it
+// (del := func(key string) int {...}; n += del(k)): a local helper, judged like a named one.
+func calledDirectlyOnly(fn *ssa.Function) bool {
+	par := fn.Parent()
+	if par == nil || len(fn.Params) == 0 {
+		return false
+	}
+	found := false
+	for _, b := range par.Blocks {
+		for _, in := range b.Instrs {
+			mc, ok := in.(*ssa.MakeClosure)
+			if !ok || mc.Fn != ssa.Value(fn) {
+				continue
+			}
+			found = true
+			if mc.Referrers() == nil {
+				return false
+			}
+			for _, r := range *mc.Referrers() {
+				switch u := r.(type) {
+				case *ssa.Call:
+					if u.Call.Value != ssa.Value(mc) {
+						return false
+					}
+				case *ssa.DebugRef:
+				default:
+					return false
+				}
+			}
+		}
+	}
+	return found
+}
+
+// bindingCell: the variable cell of the enclosing function that the free variable fv of a closure stands for.
+func bindingCell(fv *ssa.FreeVar) *ssa.Alloc {
+	fn := fv.Parent()
+	if fn == nil || fn.Parent() == nil {
+		return nil
+	}
+	idx := -1
+	for i, f := range fn.FreeVars {
+		if f == fv {
+			idx = i
+		}
+	}
+	for _, b := range fn.Parent().Blocks {
+		for _, in := range b.Instrs {
+			if mc, ok := in.(*ssa.MakeClosure); ok && mc.Fn == ssa.Value(fn) && idx >= 0 && idx < len(mc.Bindings) {
+				if al, ok := mc.Bindings[idx].(*ssa.Alloc); ok {
+					return al
+				}
+				if fv2, ok := mc.Bindings[idx].(*ssa.FreeVar); ok {
+					return bindingCell(fv2)
+				}
+			}
+		}
+	}
+	return nil
 }
